@@ -454,8 +454,14 @@ def mrgLine : P String := do
   let v : Verdict := { tag := if a.isEmpty || b.isEmpty then "mrg trivial" else "mrg" }
   let v := v.diffIf (mergePFs a b != m) s!"Factored::merge model={mergePFs a b} impl={m}"
   let bound := ((a ++ b ++ m).map (·.1)).foldl max 0 + 1
-  let join (i : Nat) : Option Nat := match lookup b i with | some x => some x | none => lookup a i
-  let v := v.failIf (!((List.range bound).all (fun i => lookup m i == join i))) s!"Factored::merge not_join a={a} b={b} impl={m}"
+  -- documented contract: every factor named by either operand once, with that operand's value; on a factor named by both the value is
+  -- "from one of the two inputs" (unspecified which: the model takes the right one as the code does — a `diff` at most)
+  let okAt (i : Nat) : Bool := match lookup a i, lookup b i with
+    | none, none => lookup m i == none
+    | some x, none => lookup m i == some x
+    | none, some y => lookup m i == some y
+    | some x, some y => lookup m i == some x || lookup m i == some y
+  let v := v.failIf (!((List.range bound).all okAt)) s!"Factored::merge not_join a={a} b={b} impl={m}"
   let v := v.failIf (!((m.zip (m.drop 1)).all (fun p => decide (p.1.1 < p.2.1)))) s!"Factored::merge keys_not_ascending impl={m}"
   pure v.render
 
